@@ -261,8 +261,8 @@ def mutators(S):
         lambda L, v: setattr(L.beam, 'integrator', NumericalIntegrator(step=v)), setc(B, 'integrator_step'))
     reg('beam.transform', lambda r, c: _other(r, BEAM_TR, c[B]['transform']),
         lambda L, v: setattr(L.beam, 'transform', S.mat(v)), setc(B, 'transform'))
-    reg('beam.parent', lambda r, c: 'alt' if c[B]['parent'] == 'mid' else 'mid',
-        lambda L, v: setattr(L.beam, 'parent', L.mid if v == 'mid' else L.alt), setc(B, 'parent'))
+    reg('beam.parent', lambda r, c: _other(r, ['mid', 'alt', 'plasma'], c[B]['parent']),
+        lambda L, v: setattr(L.beam, 'parent', S.parent_of(L, v)), setc(B, 'parent'))
     # laser
     reg('laser.importance', lambda r, c: _other(r, [1.0, 2.0, 0.5], c[La]['importance']),
         lambda L, v: setattr(L.laser, 'importance', v), setc(La, 'importance'))
@@ -275,14 +275,14 @@ def mutators(S):
     reg('beam.attenuator(same-object)', lambda r, c: None, lambda L, v: setattr(L.beam, 'attenuator', L.beam.attenuator), lambda cfg, v: None)
     reg('plasma.atomic_data(same-object)', lambda r, c: None, lambda L, v: setattr(L.plasma, 'atomic_data', L.plasma.atomic_data), lambda cfg, v: None)
     reg('laser.plasma', lambda r, c: None, lambda L, v: setattr(L.laser, 'plasma', L.laser.plasma), lambda cfg, v: None)
-    reg('laser.models', lambda r, c: _other(r, [1, 2], c[La]['models']),
+    reg('laser.models', lambda r, c: _other(r, [0, 1, 2], c[La]['models']),
         lambda L, v: setattr(L.laser, 'models', [S.SeldenMatobaThomsonSpectrum() for _ in range(v)]), setc(La, 'models'))
     reg('laser.integrator', lambda r, c: _other(r, [0.05, 0.04, 0.08], c[La]['integrator_step']),
         lambda L, v: setattr(L.laser, 'integrator', NumericalIntegrator(step=v)), setc(La, 'integrator_step'))
     reg('laser.transform', lambda r, c: _other(r, LASER_TR, c[La]['transform']),
         lambda L, v: setattr(L.laser, 'transform', S.mat(v)), setc(La, 'transform'))
-    reg('laser.parent', lambda r, c: 'alt' if c[La]['parent'] == 'mid' else 'mid',
-        lambda L, v: setattr(L.laser, 'parent', L.mid if v == 'mid' else L.alt), setc(La, 'parent'))
+    reg('laser.parent', lambda r, c: _other(r, ['mid', 'alt', 'plasma', 'beam'], c[La]['parent']),
+        lambda L, v: setattr(L.laser, 'parent', S.parent_of(L, v)), setc(La, 'parent'))
 
     def prof_set(attr, idx):
         def act(L, v):
@@ -339,7 +339,7 @@ def check_history(S, M, cfg0, hist):
     if st == 'raised':
         ev = events[-1]
         return 'mutator %s raised %s: %s' % ev
-    fst, fo = S.observe(S.build(cfg), order=[3, 2, 1, 0])      # evaluation order must not matter either
+    fst, fo = S.observe(S.build(cfg), order=list(reversed(range(len(S.SIGHTS)))))      # evaluation order must not matter either
     return differs((st, o), (fst, fo))
 
 
@@ -495,9 +495,10 @@ MODEL_SET_CHANGERS = ('plasma.models(generator)', 'beam.models(tuple)', 'plasma.
 
 def _idents(L):
     d = {}
-    d['cache:PlasmaMaterial'] = [id(c.material) for c in L.plasma.children]
-    d['cache:BeamMaterial'] = [id(c.material) for c in L.beam.children]
-    d['cache:BeamGeometry'] = [id(c) for c in L.beam.children]
+    prim = lambda n: [c for c in n.children if hasattr(c, 'material')]      # (a beam / laser may be parented to the plasma / beam)
+    d['cache:PlasmaMaterial'] = [id(c.material) for c in prim(L.plasma)]
+    d['cache:BeamMaterial'] = [id(c.material) for c in prim(L.beam)]
+    d['cache:BeamGeometry'] = [id(c) for c in prim(L.beam)]
     d['cache:LaserGeometry'] = [id(c) for c in L.laser.get_geometry()]
     d['cache:LaserMaterial'] = [id(c.material) for c in L.laser.get_geometry()]
     return d
@@ -553,7 +554,7 @@ def refill_correspondence(ctx, S, M):
             return
         _force_models(L)
         keep = [list(L.plasma.children), list(L.beam.children), list(L.laser.get_geometry()),
-                [c.material for c in L.plasma.children + L.beam.children + L.laser.get_geometry()]]  # keep ids alive
+                [getattr(c, 'material', None) for c in L.plasma.children + L.beam.children + L.laser.get_geometry()]]  # keep ids alive
         before = _idents(L)
         for d in L.data.values():
             d.calls.clear()
